@@ -19,7 +19,11 @@ RULE = ("adversarial stream, every call under recover and a deadline: (a) mutate
         "(shared and cyclic subschema pointers, nil children in every container field, nil root, malformed URIs and patterns, conflicting "
         "fields) into Resolve under every loader behaviour (none, error, nil, wrong document, self-referential universe, a node of the graph "
         "itself, ValidateDefaults); (c) instances in every representation of C08 plus non-JSON kinds at the top against schemas with type; "
-        "(d) reference universes with loader faults; (e) ForType on recursive / unsupported types. Violation = panic, crash or deadline on the "
+        "(d) reference universes with loader faults, incl. cycles between Loader documents that name each other by absolute URIs with a "
+        "userinfo part (op validate-go: net/url's userinfo is not in the model, so the model is not consulted; the Loader gives up after "
+        "8k+16 requests for k documents and an overrun counts as not returning); (e) ForType on recursive / unsupported types, incl. "
+        "recursive declared ARRAY types (type Quad [4]*Quad, type Trie [2][]Trie, mutual, and holders of one): a fatal stack overflow of the "
+        "harness process is isolated per operation and reported as outcome crash. Violation = panic, crash or deadline on the "
         "real package; where the model covers the call its outcome is compared too. Non-trivial: every op; distinct = operation text")
 ASSUMPTIONS = ["schema recursion passes through an instance-descending keyword (otherwise the Go stack overflows: outside the proviso)",
                "encoding/json's byte scanner is the standard library's (not modelled)"]
@@ -51,6 +55,19 @@ ILLTYPED = [("type", Num("5")), ("type", [Num("1")]), ("type", None), ("items", 
             ("pattern", "("), ("patternProperties", Obj([("[", True)])), ("$defs", Obj([("x", None)])), ("not", None), ("if", []),
             ("uniqueItems", "yes"), ("$vocabulary", Obj([("v", Num("1"))])), ("dependentRequired", Obj([("a", "b")])),
             ("$dynamicRef", "#nosuch"), ("$dynamicRef", "#/properties"), ("$dynamicRef+defs", "definitions"), ("$dynamicRef+defs", "$defs"), ("maxLength", Num("4294967296.0")), ("minItems", Num("2147483648.0")), ("minLength", Num("1e10")), ("$schema", Num("7")), ("additionalProperties", None), ("prefixItems", Obj()), ("default", None)]
+
+
+def _has_big_number(v):
+    from fractions import Fraction
+    acc = []
+    vjudge._nums(v, acc)
+    for t in acc:
+        try:
+            if abs(Fraction(t)) >= 2**50:
+                return True
+        except Exception:
+            pass
+    return False
 
 
 def graph(rng, fields):
@@ -109,6 +126,10 @@ def gen(rng, tier, n):
         elif r < 0.6:
             g = graph(rng, fields)
             ginsts = [gv.represent(rng, gv.gen_json(rng, 2)) for _ in range(3)]
+            if any("MultipleOf" in nd for nd in g["nodes"]):
+                # multipleOf is evaluated with a float64 quotient, exact only below 2^53: instances with a number of magnitude >= 2^50
+                # against a graph that uses multipleOf are outside the domain (vjudge.outside_multipleOf_domain says the same for documents)
+                ginsts = [x for x in ginsts if not _has_big_number(x)]
             ld = rng.choice(["", "", "error", "nil", "self", "wrong", "node", "validate-defaults"])
             if ld not in ("", "error", "nil"):
                 # the model does not cover these loader behaviours, so it cannot tell whether the graph recurses without descending
@@ -152,6 +173,11 @@ def gen(rng, tier, n):
         elif rng.random() < 0.12:
             from .. import gen_refs as _gr
             ops.append({"op": "validate", "args": _gr.mixed_cycle(rng), "meta": {"universe": True, "mixed": True}})
+        elif rng.random() < 0.25:
+            # cycles between Loader documents named by absolute URIs WITH userinfo: outside the model of net/url, so op validate-go
+            # (not sent to the model); judged by "returns" and by the Loader's request count
+            args, meta = gen_refs.userinfo_cycle(rng)
+            ops.append({"op": "validate-go", "args": args, "meta": meta})
         else:
             used = set()
             t = gt.gen_type(rng, 3, used, allow_known=0.1, allow_rec=0.3, allow_bad=0.3)
@@ -190,6 +216,10 @@ def judge(o, go, m):
     b = bad(go)
     if b:
         return "violation", "the real package does not return: " + b
+    if go is not None and go.get("overrun"):
+        return "violation", ("the real package does not return on its own: Resolve asked the Loader %d times for a universe of %s documents and "
+                             "stopped only because the harness Loader gave up (unbounded load/resolve recursion): %r" % (
+                                 len(go.get("log") or []), (o.get("meta") or {}).get("ndocs"), (go.get("log") or [])[:6]))
     mo = (m or {}).get("model") or {}
     me = o.get("meta") or {}
     # where the model covers the call, its outcome class must agree (panic is never predicted inside the domain)
